@@ -40,6 +40,7 @@ type GenOpts struct {
 	StandIns         bool // a registration replaces a stand-in that was registered under its identity some calls earlier and removed right before
 	PtrIn            bool // parameter objects taken by pointer
 	PtrErr           bool // error results declared with a concrete pointer type
+	ReplaceBias      bool // every multi-output registration that allows it loses one identity to a replacement registered later
 	BuildModes       bool // Build / BuildWithContext (cancellable, cancelled afterwards) / BuildWithOptions (timeout)
 	SameOuts         bool // a multi-return constructor that hands back one instance under two declared types
 	SigTwins         bool // a second registration with the very signature of another one (shared analysis), other lifetime, other group/name
@@ -554,7 +555,7 @@ func GenConfig(t *rapid.T, o GenOpts) *Config {
 		genEmbeds(t, regs)
 	}
 	if o.Drops {
-		regs = genDrops(t, regs)
+		regs = genDrops(t, regs, o.ReplaceBias)
 	}
 	// shuffle registration order (a registration that re-registers a removed identity stays behind the remover)
 	perm := rapid.Permutation(seq(len(regs))).Draw(t, "regorder")
@@ -830,7 +831,7 @@ func GenKindsConfig(t *rapid.T) *Config {
 // identity nobody depends on is dropped, at least one real output stays, and
 // Remove(T) is only used for a type that has no keyed or grouped registration
 // (its documentation and its implementation disagree about those).
-func genDrops(t *rapid.T, regs []Reg) []Reg {
+func genDrops(t *rapid.T, regs []Reg, replaceBias bool) []Reg {
 	needed := map[Ident]bool{}
 	typeHasKeyedOrGroup := map[int]bool{}
 	for _, r := range regs {
@@ -877,7 +878,7 @@ func genDrops(t *rapid.T, regs []Reg) []Reg {
 				cand = append(cand, k)
 			}
 		}
-		if len(cand) == 0 || rapid.IntRange(0, 2).Draw(t, "drop") != 0 {
+		if len(cand) == 0 || (!replaceBias && rapid.IntRange(0, 2).Draw(t, "drop") != 0) {
 			continue
 		}
 		k := rapid.SampledFrom(cand).Draw(t, "dropIdx")
@@ -885,7 +886,7 @@ func genDrops(t *rapid.T, regs []Reg) []Reg {
 		{
 			// half of the time somebody else registers the removed identity again (the
 			// documented way of replacing one service of a module by a mock)
-			if rapid.Bool().Draw(t, "reAdd") {
+			if replaceBias || rapid.Bool().Draw(t, "reAdd") {
 				id := all[k].Ident
 				impl := id.T
 				if IsIface(impl) {
@@ -893,7 +894,11 @@ func genDrops(t *rapid.T, regs []Reg) []Reg {
 				} else if IsSliceSvc(impl) {
 					impl = NumD + rapid.IntRange(0, 3).Draw(t, "reAddCarrier")
 				}
-				again = append(again, Reg{ID: nextID, Life: rapid.IntRange(0, 2).Draw(t, "reAddLife"), Form: FormPlain,
+				life := rapid.IntRange(0, 2).Draw(t, "reAddLife")
+				if replaceBias && rapid.Bool().Draw(t, "reAddSameLife") {
+					life = r.Life // a mock takes the place of the real thing
+				}
+				again = append(again, Reg{ID: nextID, Life: life, Form: FormPlain,
 					Outs: []OutSpec{{T: id.T, Impl: impl}}, Name: id.Key, HasErr: rapid.Bool().Draw(t, "reAddErr"), After: []int{r.ID}})
 				nextID++
 			}
